@@ -326,7 +326,7 @@ func run(r *core.Run) {
 	d4 := buildD4(rn.d4opts())
 	r.Set("D4_size", len(d4))
 	phase("D4_format", func() bool {
-		ok := r.Parallel(int64(len(d4)), 32, func(w int, lo, hi int64) {
+		ok := r.Parallel(int64(len(d4)), 8, func(w int, lo, hi int64) {
 			e := rn.env(w)
 			var fs []fail
 			for i := lo; i < hi; i++ {
@@ -437,7 +437,7 @@ func run(r *core.Run) {
 	phase("parseInt_radix", func() bool { return rn.parseIntPhase(d4) })
 
 	// P7: texts over the reduced alphabet, longer
-	phase("texts_reduced_alphabet", func() bool { return rn.texts("reduced", alphaReduced, r.Pick(6, 7), r.Pick(7, 9)) })
+	phase("texts_reduced_alphabet", func() bool { return rn.texts("reduced", alphaReduced, r.Pick(6, 7), r.Pick(7, 8)) })
 
 	// P8 (thorough): D3 = binary32 values widened, shortest digits via ftoa, by index range
 	if r.Thorough() {
@@ -607,7 +607,7 @@ func (rn *runner) d3(d4set map[uint64]struct{}) bool {
 			got := safeFToStr(x, 0, 0, buf[:0])
 			num := nm.Of(x)
 			if cls := judgeShortest(ver, &num, got, false); cls != "" {
-				fs = append(fs, fail{opString + "|" + cls + "|binary32", fmt.Sprintf("ftoa shortest of %s (bits %s) gives %q [%s]", strconv.FormatFloat(x, 'g', -1, 64), bitsHex(x), got, cls),
+				fs = append(fs, fail{formatSig(opString, 0, cls, x), fmt.Sprintf("ftoa shortest of %s (bits %s) gives %q [%s]", strconv.FormatFloat(x, 'g', -1, 64), bitsHex(x), got, cls),
 					Case{Kind: "format", Bits: bitsHex(x), X: strconv.FormatFloat(x, 'g', -1, 64), Op: opString, Route: "ftoa", Got: got, Want: nm.ToString(x)}})
 			}
 			m, _ := nm.Decompose(x)
